@@ -593,6 +593,7 @@ WORKLOADS = [
     Workload("ctor", w_ctor, 1000, 20000),
     Workload("ctor_rejects", w_ctor_rejects, 8, 80),
     Workload("devices_under_invariant", w_devices_under_invariant, 20, 400),
+    Workload("repo_tests", lambda ctx, rng, i: core.run_repo_tests(ctx), 1, 1, budget=1800, tiers=("thorough",)),
 ]
 
 
